@@ -28,6 +28,8 @@ struct token_bucket {
 	__u32 burst_bytes;      /* Maximum burst size in bytes */
 	__u8  priority;         /* Traffic priority (0-7) */
 	__u8  _pad[3];
+	__u32 frac;             /* Accrued fraction of a byte, in 1e-9 bytes */
+	__u32 _pad2;
 };
 
 /* QoS policy map: subscriber IP -> token bucket
@@ -70,7 +72,6 @@ struct {
 static __always_inline int token_bucket_check(struct token_bucket *tb, __u32 pkt_len) {
 	__u64 now = bpf_ktime_get_ns();
 	__u64 elapsed_ns;
-	__u64 new_tokens;
 	__u64 tokens_needed;
 
 	/* Rate of 0 means unlimited */
@@ -91,20 +92,21 @@ static __always_inline int token_bucket_check(struct token_bucket *tb, __u32 pkt
 
 		if (elapsed_ns >= fill_ns) {
 			tb->tokens = tb->burst_bytes;
-			tb->last_update = now;
+			tb->frac = 0;
 		} else {
-			/* tokens = elapsed_ns * rate_Bps / 1e9, whole bytes only */
-			new_tokens = (elapsed_ns * rate_Bps) / 1000000000ULL;
-			if (new_tokens > 0) {
-				tb->tokens += new_tokens;
-				if (tb->tokens > tb->burst_bytes)
-					tb->tokens = tb->burst_bytes;
-				/* Advance the timestamp only by the time these whole
-				 * tokens stand for, so the fraction of a byte accrued
-				 * since then is not thrown away with every packet */
-				tb->last_update += (new_tokens * 1000000000ULL + rate_Bps - 1) / rate_Bps;
+			/* Whole bytes go to tokens, the rest of a byte is carried
+			 * in frac: no rounding, so neither credit nor time is
+			 * gained or lost however often the bucket is refilled */
+			__u64 accrued = elapsed_ns * rate_Bps + tb->frac;
+
+			tb->tokens += accrued / 1000000000ULL;
+			tb->frac = accrued % 1000000000ULL;
+			if (tb->tokens >= tb->burst_bytes) {
+				tb->tokens = tb->burst_bytes;
+				tb->frac = 0;
 			}
 		}
+		tb->last_update = now;
 	}
 
 	/* Check if we have enough tokens for this packet */
